@@ -2683,6 +2683,7 @@ func pathFactsBetween(from, to ssa.Instruction, limit int) (paths [][]Fact, comp
 		}
 	}
 	mark(tb)
+	var bpath []*ssa.BasicBlock
 	var walk func(b *ssa.BasicBlock, facts []Fact, seen map[*ssa.BasicBlock]bool)
 	walk = func(b *ssa.BasicBlock, facts []Fact, seen map[*ssa.BasicBlock]bool) {
 		if len(paths) >= limit {
@@ -2698,10 +2699,15 @@ func pathFactsBetween(from, to ssa.Instruction, limit int) (paths [][]Fact, comp
 		}
 		seen[b] = true
 		defer delete(seen, b)
+		bpath = append(bpath, b)
+		defer func() { bpath = bpath[:len(bpath)-1] }()
 		last := b.Instrs[len(b.Instrs)-1]
 		if iff, ok := last.(*ssa.If); ok {
-			walk(b.Succs[0], append(append([]Fact(nil), facts...), Fact{iff.Cond, true, iff}), seen)
-			walk(b.Succs[1], append(append([]Fact(nil), facts...), Fact{iff.Cond, false, iff}), seen)
+			for k, truth := range []bool{true, false} {
+				nf := append(append([]Fact(nil), facts...), Fact{iff.Cond, truth, iff})
+				nf = append(nf, phiFactsOnPath(iff, truth, bpath)...)
+				walk(b.Succs[k], nf, seen)
+			}
 			return
 		}
 		for _, s := range b.Succs {
